@@ -49,6 +49,10 @@ def strip_wrappers(t, names=ELEMENT_PRESERVING, slices=True):
         if c and len(c[0]) >= 1 and t[2][0] == "builtin":
             t = c[0][0]
             continue
+        # itertools.islice(X, ...) holds elements of X, like a slice
+        if slices and isinstance(t, tuple) and t and t[0] == "call" and t[2] == ("ext", "itertools.islice") and t[3]:
+            t = t[3][0]
+            continue
         return t
 
 
@@ -83,6 +87,11 @@ def elem_of(t):
             if t[2][1] == 0:
                 return ("index", strip_wrappers(args[0]))
             return elem_of(("iter", None, args[0]))
+        if inner and inner[0] == "elem" and t[2][1] == 0:
+            # the node key of a (node, data) pair drawn from G.nodes(data=...), however the pair was reached (enumerate, zip)
+            c = inner[1]
+            if c[0] == "call" and c[2][0] == "attr" and c[2][2] == "nodes" and (c[3] or c[4]):
+                return ("elem", ("attr", c[2][1], "nodes"))
     return None
 
 
